@@ -5,7 +5,10 @@ step, including refused steps.  check_impl: the final result equals the one-shot
 concatenation, and bitcnt after every non-final piece is the number of bits fed so far.  Pieces may carry their bit
 length (`upd <hex> <L>`, `fin <hex> <L>`: the first L bits of the buffer count, L = 0 on a non-empty buffer included) and
 a line may re-initialise the object (`init` = h.initstate()) after an abandoned / finished / refused stream: the run after
-the last `init` is compared with the one-shot call of a FRESH object, the bit counter right after `init` must be 0."""
+the last `init` is compared with the one-shot call of a FRESH object, the bit counter right after `init` must be 0.
+`hashseqs <alg0>,<alg1>,… | <k> new | <k> <step> | env <name> | …` lines keep SEVERAL objects alive (hashcommon.run_multi): the
+steps of object k, taken alone, must satisfy the same predicate whatever the other objects and the library do in between.  In
+Lean the objects are values in a list (Model.Multi): there siblings cannot interfere by construction."""
 import itertools
 from props.common import *
 from props import hashcommon as HC
@@ -17,7 +20,15 @@ TRUSTED = []
 RULE = ('`hashseq` pieces with explicit bit lengths: a message streamed through one reused buffer of 1-2 blocks (every piece = the whole '
         'buffer + its valid bits; 0 bits of a non-empty buffer at the end / on an empty read), L = 0 on data and L = 8n of a longer '
         'buffer on final and non-final pieces; histories `… | init | upd* fin` after 1..3 abandoned blocks, a finished or a refused '
-        'stream (bit counter observed after init)')
+        'stream (bit counter observed after init), or a complete earlier life of the object (one-shot calls plain / with the optional bit '
+        'length / refused, a finished stream, a step refused after the final one, several in a row); `hashseqs <algs> | <k> new | <k> step | '
+        'env <name>`: SEVERAL objects alive in one line — a second object of the same class or of another class with the same block '
+        'geometry (SHA-1/SHA-256/SHA-224/SHA-0, SHA-512/SHA-384/SHA-512-t, MD4/MD5, MD5/SHA-1) constructed, initialised, fed, called, '
+        'finished, refused or re-initialised BETWEEN two pieces, two and three complete streams interleaved piece by piece (fixed and '
+        'random interleavings), library activity on no object of the line (other hash objects, HMAC, Blake/Blake2 objects and singletons) '
+        'between two pieces; every stream compared with its own one-shot call on a fresh object and the standard digest of its own pieces. '
+        'The Lean objects are values in a list (Model.Multi; Proofs.C14.siblings_do_not_interfere): siblings cannot interfere there by '
+        'construction, the lines test that the Python objects share no counter / padding object')
 ASSUMPTIONS = ['padmethod.bitcnt after the FINAL piece is 0 when the padding spilled into an extra block (C09: zero for a pad-only block): compared code<->model only']
 
 run_impl = HC.run_impl
@@ -33,14 +44,15 @@ def piece_of(st):
     return unhx(st[1]), (unoi(st[2]) if len(st) > 2 else None)
 
 
-def check_impl(line, res):
-    op = line.split()[0]
-    alg, steps = parse(line)
+def check_steps(op, alg, steps, outs, who=''):
+    """the predicate on the steps of ONE object and what was printed after each of them"""
     kinds = [s[0] for s in steps]
     # the property's shape: [anything … init] upd* fin — what was done to the object before the last `init` (an abandoned or
-    # a finished stream, refused steps) must not matter; every piece may carry its bit length: the first L bits of the buffer
-    # count (L = 0: nothing, whatever the buffer holds); non-final pieces are whole blocks
-    start = len(kinds) - kinds[::-1].index('init') if 'init' in kinds else 0
+    # a finished stream, complete one-shot calls with or without a bit length, refused steps) must not matter; every piece may
+    # carry its bit length: the first L bits of the buffer count (L = 0: nothing, whatever the buffer holds); non-final pieces
+    # are whole blocks
+    inits = [i for i, k in enumerate(kinds) if k in ('init', 'new')]           # `new` (hashseqs): the constructor ends with initstate()
+    start = inits[-1] + 1 if inits else 0
     run = steps[start:]
     if not (run and run[-1][0] == 'fin' and all(s[0] == 'upd' for s in run[:-1])): return None
     B = HC.blocklen(alg)
@@ -48,11 +60,10 @@ def check_impl(line, res):
     eff = [8 * len(p) if L is None else L for p, L in pieces]
     if any(L > 8 * len(p) for (p, _), L in zip(pieces, eff)): return None          # refusals: C01 / the hashseqc lines
     if any(L % (8 * B) for L in eff[:-1]): return None
-    outs = res.split(';')
-    bad = lambda why: '%s %s pieces(bits) %s%s: %s' % (op, alg, ['%d/%d' % (8 * len(p), L) for (p, _), L in zip(pieces, eff)],
-                                                      ' after init on a used object' if start else '', why)
+    bad = lambda why: '%s %s%s pieces(bits) %s%s: %s' % (op, alg, who, ['%d/%d' % (8 * len(p), L) for (p, _), L in zip(pieces, eff)],
+                                                        ' after the steps (%s) on the object' % ' '.join(kinds[:start]) if start else '', why)
     if len(outs) != len(steps): return bad('%d results for %d steps' % (len(outs), len(steps)))
-    cnt_of = lambda o: int(o.split(',')[1 if op == 'hashseq' else 2])
+    cnt_of = lambda o: int(o.split(',')[2 if op == 'hashseqc' else 1])
     if start and cnt_of(outs[start - 1]) != 0: return bad('bitcnt %d right after initstate()' % cnt_of(outs[start - 1]))
     if any(o.startswith('ERR') for o in outs[start:]): return bad('a step was refused')
     fed = 0
@@ -64,7 +75,35 @@ def check_impl(line, res):
     total = fed + eff[-1]
     one = HC.run_hash([alg, hx(M), 'None' if total % 8 == 0 else str(total)])
     if outs[-1].split(',')[0] != one: return bad('differs from the one-shot digest %s of the %d-bit concatenation' % (one, total))
+    # a complete one-shot call in the earlier life of the object is the call of a fresh object too
+    for s, o in zip(steps[:start], outs[:start]):
+        if s[0] == 'call' and (s[2] == 'None' or 0 < int(s[2]) <= 8 * len(unhx(s[1]))) and o.split(',')[0] != HC.run_hash([alg, s[1], s[2]]):
+            return bad('an earlier call on the object differs from the same call on a fresh object')
     return None
+
+
+def parse_multi(line):
+    """hashseqs line -> (algs, [(k | None for env, step tokens)])"""
+    steps = HC.split_bar(line.split()[1:])
+    return steps[0][0].split(','), [(None, st) if st[0] == 'env' else (int(st[0]), st[1:]) for st in steps[1:]]
+
+
+def check_impl(line, res):
+    op = line.split()[0]
+    outs = res.split(';')
+    if op == 'hashseqs':
+        # SEVERAL objects alive in one line: every object's stream, taken alone, must satisfy the predicate — whatever the
+        # other objects (same class, another class with the same block geometry, the environment) do between its steps
+        algs, steps = parse_multi(line)
+        if len(outs) != len(steps): return 'hashseqs: %d results for %d steps' % (len(outs), len(steps))
+        for j, alg in enumerate(algs):
+            own = [(st, o) for (k, st), o in zip(steps, outs) if k == j]
+            f = check_steps(op, alg, [st for st, _ in own], [o for _, o in own],
+                            ' (object %d of %s; interleaved as %s)' % (j, ','.join(algs), ' '.join('e' if k is None else str(k) for k, _ in steps)))
+            if f: return f
+        return None
+    alg, steps = parse(line)
+    return check_steps(op, alg, steps, outs)
 
 
 def rnd(rng, n): return bytes(rng.getrandbits(8) for _ in range(n))
@@ -159,13 +198,94 @@ def history_cases(alg, rng, thorough):
         m = rnd(rng, B + 11)
         yield 'hashseqc %s | upd %s | init | upd %s | fin %s' % (alg, hx(rnd(rng, k * B)), hx(m[:B]), hx(m[B:])), 'history:abandoned stream, init, stream'
     yield 'hashseq %s | init | init | fin %s' % (alg, hx(rnd(rng, 3))), 'history:abandoned stream, init, stream'
+    # a complete earlier life of the object: one-shot calls (plain, with the optional bit length, refused), a finished stream,
+    # a step refused after the final one, several of them in a row — then initstate() and the piecewise run
+    m0, t0 = rnd(rng, B + 9), rnd(rng, 3)
+    call = lambda m, L=None: 'call %s %s' % (hx(m), 'None' if L is None else L)
+    lives = [[call(m0)], [call(m0, 8 * B + 13)], [call(m0, 8 * len(m0) + 8)], ['upd ' + hx(rnd(rng, B)), 'fin ' + hx(t0)],
+             ['fin ' + hx(t0), 'upd ' + hx(rnd(rng, B))], [call(m0), 'fin ' + hx(t0)],
+             [call(t0, 17), 'init', 'upd ' + hx(rnd(rng, 2 * B)), 'fin %s 9' % hx(t0), call(m0, 8 * len(m0) + 1)]]
+    for li, life in enumerate(lives):
+        for cs in ((), (1,), (0, 1, 1), (1, 2)) if thorough else ((), (1,), (0, 1, 1)) if li in (0, 1, 3) else ((1,),):
+            m = rnd(rng, 2 * B + (11 if li % 2 else B - c))
+            run = seq_line('hashseq', alg, m, [x * B for x in cs]).split(' | ', 1)[1]
+            yield 'hashseq %s | %s | init | %s' % (alg, ' | '.join(life), run), 'history:complete life (calls, finished, refused), init, stream'
+    yield 'hashseqc %s | %s | init | upd %s | fin %s' % (alg, ' | '.join(lives[-1]), hx(rnd(rng, B)), hx(t0)), 'history:complete life (calls, finished, refused), init, stream'
+
+
+# ---- several objects alive at the same time --------------------------------------------------------------------------------------
+# same class / another class with the same block geometry (and, for the padding class, md5 vs sha1)
+PAIRS = [('sha256', 'sha256'), ('sha1', 'sha256'), ('sha256', 'sha224'), ('sha1', 'sha0'), ('sha1', 'sha1'), ('sha512', 'sha384'),
+         ('sha512', 'sha512'), ('sha512_256', 'sha512'), ('sha384', 'sha512_224'), ('md4', 'md5'), ('md5', 'md5'), ('md4', 'md4'), ('md5', 'sha1')]
+ENVS = lambda alg: (['new:' + alg, 'hash:' + alg, 'feed:' + alg, 'done:' + alg, 'hmac:' + alg]
+                    + (['blake:256', 'blake:224', 'blake2:256', 'blake.s:256'] if HC.blocklen(alg) == 64 else ['blake:512', 'blake:384', 'blake2:512', 'blake.s:512']))
+
+
+def stream_steps(alg, rng, nb, tail, extra=None):
+    """a complete stream on one object as step token strings: nb one-block pieces (one of them possibly empty / double) and
+    the final piece"""
+    B = HC.blocklen(alg)
+    m = rnd(rng, nb * B + tail)
+    cuts = list(range(1, nb + 1))
+    if extra == 'empty' and cuts: cuts.insert(rng.randrange(len(cuts)), cuts[rng.randrange(len(cuts))]); cuts.sort()
+    if extra == 'double' and len(cuts) > 1: del cuts[rng.randrange(len(cuts) - 1)]
+    return seq_line('hashseqs', alg, m, [x * B for x in cuts]).split(' | ')[1:]
+
+
+def weave(rng, lists):
+    """a random interleaving of the step lists (the order within each list is kept) -> [(k, step)]"""
+    pos = [0] * len(lists); out = []
+    while True:
+        live = [k for k, l in enumerate(lists) if pos[k] < len(l)]
+        if not live: return out
+        k = rng.choice(live); out.append((k, lists[k][pos[k]])); pos[k] += 1
+
+
+def mline(algs, steps):
+    return 'hashseqs %s | %s' % (','.join(algs), ' | '.join(st if k is None else '%d %s' % (k, st) for k, st in steps))
+
+
+def sibling_cases(rng, thorough):
+    """a SECOND object (same class; another class of the same block geometry) is constructed / initialised / fed / called /
+    finished / refused BETWEEN two pieces of a stream; two and three complete streams interleaved piece by piece; library
+    activity on no object of the line between two pieces.  Every stream is compared with its own one-shot call."""
+    for A, Bn in PAIRS:
+        algs = [A, Bn]; BA, BB = HC.blocklen(A), HC.blocklen(Bn)
+        for tail in ((3, BA - HC.cntlen(A)) if thorough else (3,)):
+            a = stream_steps(A, rng, 2, tail); b = stream_steps(Bn, rng, 2, 5)
+            mB = hx(rnd(rng, BB + 7))
+            yield mline(algs, [(0, 'new'), (0, a[0]), (1, 'new'), (0, a[1]), (0, a[2])]), 'siblings:constructed between two pieces'
+            yield mline(algs, [(0, 'new'), (1, 'new'), (0, a[0]), (1, b[0]), (0, a[1]), (1, b[1]), (0, a[2]), (1, b[2])]), 'siblings:two streams piece by piece'
+            yield mline(algs, [(0, 'new'), (0, a[0]), (1, 'new'), (1, 'init'), (1, b[0]), (0, a[1]), (1, b[1]), (1, b[2]), (0, a[2])]), 'siblings:constructed, initialised, fed between two pieces'
+            yield mline(algs, [(0, 'new'), (0, a[0]), (1, 'new'), (1, 'call %s None' % mB), (0, a[1]), (1, 'call %s %d' % (mB, 8 * BB + 3)), (0, a[2])]), 'siblings:called between two pieces'
+            yield mline(algs, [(0, 'new'), (1, 'new'), (0, a[0]), (1, 'fin ' + mB), (0, a[1]), (0, a[2])]), 'siblings:finished between two pieces'
+            yield mline(algs, [(0, 'new'), (1, 'new'), (1, b[0]), (0, a[0]), (1, 'upd x0102'), (0, a[1]), (1, 'init'), (0, a[2]), (1, b[0]), (1, b[1]), (1, b[2])]), 'siblings:refused / re-initialised between two pieces'
+        for _ in range(12 if thorough else 2):
+            la = ['new'] + stream_steps(A, rng, rng.randrange(1, 4), rng.randrange(0, BA), rng.choice([None, 'empty', 'double']))
+            lb = ['new'] + rng.choice([[], ['init'], stream_steps(Bn, rng, 1, 2) + ['init']]) + stream_steps(Bn, rng, rng.randrange(1, 4), rng.randrange(0, BB))
+            yield mline(algs, weave(rng, [la, lb])), 'siblings:two streams, random interleaving'
+    for algs in ([('sha1', 'sha256', 'sha224'), ('sha512', 'sha384', 'sha512'), ('md4', 'md5', 'sha0'), ('sha256', 'sha512', 'md5')]
+                 + ([tuple(rng.choice(HC.NAMES) for _ in range(3)) for _ in range(20)] if thorough else [])):
+        ls = [['new'] + stream_steps(x, rng, rng.randrange(1, 3), rng.randrange(0, 9)) for x in algs]
+        yield mline(algs, weave(rng, ls)), 'siblings:three streams, random interleaving'
+    for alg in HC.NAMES:
+        a = stream_steps(alg, rng, 2, 3)
+        for e in ENVS(alg) if thorough else rng.sample(ENVS(alg), 3) + ['blake:%d' % (256 if HC.blocklen(alg) == 64 else 512)]:
+            yield mline([alg], [(0, 'new'), (0, a[0]), (None, 'env ' + e), (0, a[1]), (0, a[2])]), 'siblings:library activity between two pieces'
 
 
 def cases(tier, rng):
     if tier == 'search':
         while True:
             alg = rng.choice(HC.NAMES); B = HC.blocklen(alg)
-            k = rng.randrange(4)
+            k = rng.randrange(5)
+            if k == 4:
+                algs = [alg] + [rng.choice([x for x in HC.NAMES if HC.blocklen(x) == B] + [alg]) for _ in range(rng.randrange(1, 3))]
+                ls = [['new'] + rng.choice([[], ['init'], ['call x6162 None', 'init']]) + stream_steps(x, rng, rng.randrange(0, 4), rng.randrange(0, B)) for x in algs]
+                steps = weave(rng, ls)
+                if rng.randrange(3) == 0: steps.insert(rng.randrange(1, len(steps)), (None, 'env ' + rng.choice(ENVS(alg))))
+                yield mline(algs, steps), 'search'
+                continue
             if k == 0:
                 yield readinto_line('hashseq', alg, rnd(rng, rng.choice([0, 1, B, 2 * B, rng.randrange(0, 4 * B)])), rng.choice([1, 2]),
                                     rng.choice([None, 0, 1, 2]), rng), 'search'
@@ -215,11 +335,18 @@ def cases(tier, rng):
             yield 'hashseq %s | upd %s | fin %s %d' % (alg, hx(p1), hx(p1 + p2), 8 * B + L), 'bitlen on final'
         yield from bitlen_cases(alg, rng, thorough)
         yield from history_cases(alg, rng, thorough)
+    yield from sibling_cases(rng, thorough)
 
 
 def shrink(line):
-    alg, steps = parse(line)
     op = line.split()[0]
+    if op == 'hashseqs':
+        algs, steps = parse_multi(line)
+        for i in range(len(steps)):
+            if steps[i][1] != ['new']:
+                yield mline(algs, [(k, ' '.join(st)) for k, st in steps[:i] + steps[i + 1:]])
+        return
+    alg, steps = parse(line)
     if len(steps) > 1:
         for i in range(len(steps) - 1):
             yield '%s %s | %s' % (op, alg, ' | '.join(' '.join(s) for s in steps[:i] + steps[i + 1:]))
